@@ -21,7 +21,7 @@ INFO = dict(
         "recovery: with the true key among the candidates the configuration, key, guard settings, checksum and offsets are exact; "
         "payload_checksum == weighted byte sum mod 99999999 for 24..64 symbolic bytes; the real heuristic is additionally run "
         "natively on the concrete witness of every path (not solver-decided)",
-        thorough="key lengths 2..6; lead offsets 0..4; both scalings for every option subset; checksum over 6144 symbolic bytes",
+        thorough="key lengths 2..5 (single option) / 2..3; lead offsets 0 and 2; checksum over 6144 symbolic bytes; both look-alike scenarios",
     ),
     outside="that the n-gram frequency heuristic ranks the true key first for EVERY configuration and key (statistical; decided only "
     "for the concrete witnesses); patch areas at their real size 6144/2048 with symbolic content; XorEncoded containers (C09/C01); "
@@ -69,7 +69,7 @@ def ref_checksum(cells):
     return binop("%", n, 99999999)
 
 
-def protect(P, G, plain, key, opts, opt_vals, checksum, lead, trail):
+def protect(P, G, plain, key, opts, opt_vals, checksum, lead, trail, stray=None):
     """independent encoder of a Guardrails-protected area; returns (file cells, layout)"""
     guarded = xcells(plain, tile(key, P))  # masked with the environmental key
     masked_cfg = xcells(guarded, [0x2E] * P)  # and with the static single-byte key
@@ -83,11 +83,18 @@ def protect(P, G, plain, key, opts, opt_vals, checksum, lead, trail):
     guard += [0] * (G - len(guard))
     rev = masked_cfg[::-1]
     masked_guard = xcells(xcells(guard, tile(rev, G) if G > P else rev[:G]), [0x8A] * G)
-    cells = [0x60 + i for i in range(lead)] + masked_cfg + masked_guard + [0x51] * trail
+    lead_cells = [(0x60 + i) & 0xFF for i in range(lead)]
+    if stray is not None:
+        # a 12-byte marker look-alike in front of the protected area: reverse(a) ^ b == GUARD_USER start ^ 0x8a
+        a = [0x11, 0x22, 0x33, 0x44, 0x55, 0x66]
+        st = bytes(x ^ 0x8A for x in guardrails.GUARD_CONFIG_STARTS[0])
+        b = [x ^ y for x, y in zip(a[::-1], st)]
+        lead_cells[stray:stray + 12] = a + b
+    cells = lead_cells + masked_cfg + masked_guard + [0x51] * trail
     return cells, dict(beacon_config_offset=lead, guard_config_offset=lead + P, guard=guard, masked_cfg=masked_cfg, masked_guard=masked_guard)
 
 
-def build(ctx, P, G, klen, opts, lead, trail, checksum_mode):
+def build(ctx, P, G, klen, opts, lead, trail, checksum_mode, stray=None):
     proto = sym_bytes("proto", 1)
     port = SymBytes([0x01, 0xBB])
     plain = CB.rec(1, CB.SHORT, [0] + proto.cells) + CB.rec(2, CB.SHORT, port.cells) + [0, 0]
@@ -106,16 +113,16 @@ def build(ctx, P, G, klen, opts, lead, trail, checksum_mode):
         cks = as_bytes(m_int_to_bytes(good, 4, "big")).cells
     else:
         cks = sym_bytes("stored_checksum", 4).cells
-    cells, lay = protect(P, G, plain, key.cells, opts, vals, cks, lead, trail)
+    cells, lay = protect(P, G, plain, key.cells, opts, vals, cks, lead, trail, stray)
     # validity predicate: the masked payload is not itself a configuration obfuscated with one of the default single-byte keys
     # (an environmental key of 2e 2e .. un-masks the block; plain extraction — C01 — then rightly wins over the Guardrails path)
     from harness.c01 import cand
     # ... and the guard marker relation holds at the protected area only (stray markers formed by the symbolic bytes are possible
     # and harmless — they are reported as additional guard areas — but they multiply the paths; C08 covers markers anywhere)
     starts = [bytes(x ^ 0x8A for x in st) for st in guardrails.GUARD_CONFIG_STARTS]
-    stray = []
+    stray_conds = []
     for o in range(0, len(cells) - 11):
-        if o == lead + P - 6:
+        if o == lead + P - 6 or o == stray:
             continue
         a, b = cells[o:o + 6][::-1], cells[o + 6:o + 12]
         x = xcells(a, b)
@@ -124,9 +131,9 @@ def build(ctx, P, G, klen, opts, lead, trail, checksum_mode):
             if e is True:
                 raise PathAbort()
             if e is not False:
-                stray.append(e.e)
-    if stray:
-        ctx.assume(mkbool(z3.Not(z3.Or(*stray))))
+                stray_conds.append(e.e)
+    if stray_conds:
+        ctx.assume(mkbool(z3.Not(z3.Or(*stray_conds))))
     bad = []
     for k in (0x69, 0x2E, 0x00):
         for i in range(lead, lead + P - 6):
@@ -159,10 +166,10 @@ def native_patches(P, G, cands=None):
     return out
 
 
-def h_recover(P, G, klen, opts, lead, trail):
+def h_recover(P, G, klen, opts, lead, trail, stray=None):
     """the true key is among the candidates (in the real code: ranked by the heuristic; natively the real heuristic runs)"""
     def body(ctx):
-        cells, lay = build(ctx, P, G, klen, opts, lead, trail, "good")
+        cells, lay = build(ctx, P, G, klen, opts, lead, trail, "good", stray)
         decoy = SymBytes([0x11, 0x22, 0x33, 0x44, 0x55, 0x66][:klen])  # a wrong candidate ranked first (its checksum is decided by the solver)
         holder = {}
 
@@ -276,10 +283,10 @@ def instances(tier):
     for opts in subsets:
         G = 8 * sum(1 for n in opts if n != "local_ip") + (10 if "local_ip" in opts else 0) + 10 + 2
         G = max(16, G + (G % 2))
-        for P in ((24,) if q else (24, 32)):
-            klens = (2, 3) if q and opts == ("user",) else ((2,) if q else (2, 3, 4, 6))
+        for P in ((24,) if q or len(opts) > 1 else (24, 32)):
+            klens = (2, 3) if q and opts == ("user",) else ((2,) if q else ((2, 3, 4, 5) if len(opts) == 1 else (2, 3)))
             for klen in klens:
-                for lead, trail in (((0, 0), (2, 3)) if q and opts in (("local_ip",), tuple(names)) else ((0, 0),) if q else ((0, 0), (1, 0), (2, 3), (4, 1))):
+                for lead, trail in (((0, 0), (2, 3)) if q and opts in (("local_ip",), tuple(names)) else ((0, 0),) if q else ((0, 0), (2, 3))):
                     i = Instance("recover P=%d G=%d key=%d opts=%s lead=%d" % (P, G, klen, "+".join(opts), lead), h_recover(P, G, klen, opts, lead, trail),
                                  dict(kind="recover", P=P, G=G, keylen=klen, options=list(opts), lead=lead, trail=trail, cost=50), split=8, max_loop=4000)
                     i.native_patches = native_patches(P, G)
@@ -290,6 +297,14 @@ def instances(tier):
                              dict(kind="safety", P=24, G=G, keylen=klen, options=list(opts), cost=500), split=8, max_loop=4000)
                 i.native_patches = native_patches(24, G)
                 out.append(i)
+    # a marker look-alike shortly in front of the protected area (its own 'guard area' overlaps the real marker): the scan must
+    # go on behind the look-alike and still find the protected area
+    for opts, lead, st in (((("user", "domain"), 32, 19),) if q else ((tuple(names), 40, 20), (("user", "domain"), 32, 19))):
+        G = 8 * sum(1 for n in opts if n != "local_ip") + (10 if "local_ip" in opts else 0) + 10 + 2
+        i = Instance("recover behind a marker look-alike opts=%s lead=%d stray=%d" % ("+".join(opts), lead, st), h_recover(24, G, 2, opts, lead, 2, stray=st),
+                     dict(kind="recover_stray", P=24, G=G, options=list(opts), lead=lead, stray_marker_at=st, cost=500), split=8, max_loop=4000)
+        i.native_patches = native_patches(24, G)
+        out.append(i)
     for opts in (("user",), tuple(names)):
         G = 20 if len(opts) == 1 else 48
         i = Instance("metadata only on mismatch opts=%s" % "+".join(opts), h_metadata_only(24, G, 2, opts), dict(kind="mismatch", options=list(opts)), max_loop=4000)
